@@ -25,6 +25,8 @@ Verdict(c) ==
   \cup (IF ~FSame(c.fresh, c.best) THEN {"logged-best-differs-from-fresh-evaluation"} ELSE {})
   \cup (IF c.feasible = 0 THEN {"final-solution-infeasible"} ELSE {})
   \cup (IF c.parsed = 0 THEN {"parsed-log-differs"} ELSE {})
+  \* ended = 0: the process rejected its own final solution (or the code under test raised) when the run ended
+  \cup (IF "ended" \in DOMAIN c /\ c.ended # 1 THEN {"run-does-not-end-normally"} ELSE {})
 
 Init == tid = 0
 Next == /\ tid < NCases /\ tid' = tid + 1
